@@ -14,7 +14,7 @@ def record(tag, seed, n, stmts, wd, extra=()):
     return tp, meta
 
 
-def judge_file(tp, name, module="Trace_Sem", cfg="Trace_Sem.cfg", timeout=1500):
+def judge_file(tp, name, module="Trace_Sem", cfg="Trace_Sem.cfg", timeout=6000):
     r = C.run_tlc(module, cfg, name=name, workers=1, dfs=True, env={"TRACE": tp}, coverage=False,
                   require_ok=False, timeout=timeout, xmx="3g")
     stats = C.tlc_prints(r.out, "STATS")
